@@ -67,8 +67,9 @@ theorem batch_outputs_only_in_out_convert (T : Tool) (outDir : Path) (files : Li
   obtain ⟨f, hf, rfl⟩ := this
   exact ⟨⟨f, hf, rfl⟩, convOut_under outDir f⟩
 
-/-- odmltordf changes a path only if it is one of the three output paths of one of the files:
-    all under the out directory when the RDF directory is created inside it. -/
+/-- odmltordf changes a path only if it is one of the two output paths (`<out>/<stem>_conv.xml`,
+    `<rdf>/<stem>.rdf`) of one of the files: all under the out directory when the RDF directory is
+    created inside it. -/
 theorem batch_outputs_only_in_out_rdf (T : Tool) (outDir rdfDir : Path) (hr : Under outDir rdfDir)
     (files : List Path) (fs : Fs) (p : Path)
     (h : (loop (rdfStep T outDir rdfDir) files fs).1 p ≠ fs p) :
@@ -83,9 +84,8 @@ theorem batch_outputs_only_in_out_rdf (T : Tool) (outDir rdfDir : Path) (hr : Un
   obtain ⟨f, hf, hp⟩ := this
   refine ⟨⟨f, hf, hp⟩, ?_⟩
   simp only [rdfOuts, List.mem_cons, List.mem_nil_iff, or_false] at hp
-  rcases hp with rfl | rfl | rfl
+  rcases hp with rfl | rfl
   · exact convOut_under _ _
-  · exact under_trans hr (rdfOut_under _ _)
   · exact under_trans hr (rdfOut_under _ _)
 
 /-- With a freshly made output directory, **every file that existed before the run** — the
@@ -135,9 +135,10 @@ theorem convertible_file_gets_output (T : Tool) (outDir : Path) (files : List Pa
   rw [batch_isolation_convert T outDir files fs nd hfresh hex f hf hstem]
   simp [convStep, hl, writeToFile, hc, ensureXmlExt_conv]
 
-/-- odmltordf: the same for each of `f`'s three output paths, provided no other file's output
-    paths coincide with `f`'s (see `rdf_name_collision` for why distinct base names are not
-    enough for this tool). -/
+/-- odmltordf: the same for each of `f`'s two output paths, provided no other file's output
+    paths coincide with `f`'s (distinct base names are enough for that, see
+    `batch_isolation_rdf_base_names`; before fix b7276cb they were not, see
+    `legacy_rdf_name_collision`). -/
 theorem batch_isolation_rdf (T : Tool) (outDir rdfDir : Path) (hr : Under outDir rdfDir)
     (files : List Path) (fs : Fs)
     (nd : files.Nodup) (hfresh : Fresh fs outDir) (hex : ∀ g ∈ files, fs g ≠ none)
@@ -149,33 +150,27 @@ theorem batch_isolation_rdf (T : Tool) (outDir rdfDir : Path) (hr : Under outDir
   intro g hg hgf hmem
   simp only [rdfOuts, List.mem_cons, List.mem_nil_iff, or_false] at hmem
   apply hex f hf
-  rcases hmem with h | h | h
+  rcases hmem with h | h
   · exact h ▸ hfresh _ (convOut_under outDir g)
   · exact h ▸ hfresh _ (under_trans hr (rdfOut_under _ _))
-  · exact h ▸ hfresh _ (under_trans hr (rdfOut_under _ _))
 
-/-- odmltordf, in the vocabulary of the property: distinct files whose base names differ and are
-    not each other's name followed by `_conv`, RDF directory made inside the fresh out directory —
-    then what the batch leaves at each of `f`'s output paths is what processing `f` alone leaves. -/
+/-- odmltordf, in the vocabulary of the property: distinct files with distinct base names (exactly
+    the hypothesis of odmlconvert), RDF directory made inside the fresh out directory — then what
+    the batch leaves at each of `f`'s output paths is what processing `f` alone leaves. -/
 theorem batch_isolation_rdf_base_names (T : Tool) (outDir r : Path) (files : List Path) (fs : Fs)
     (nd : files.Nodup) (hfresh : Fresh fs outDir) (hex : ∀ g ∈ files, fs g ≠ none)
-    (f : Path) (hf : f ∈ files)
-    (hstem : ∀ g ∈ files, g ≠ f → stem f ≠ stem g ∧ stem f ≠ stem g ++ "_conv".toList ∧
-                                   stem g ≠ stem f ++ "_conv".toList)
+    (f : Path) (hf : f ∈ files) (hstem : ∀ g ∈ files, g ≠ f → stem g ≠ stem f)
     (p : Path) (hp : p ∈ rdfOuts outDir (outDir ++ '/' :: r) f) :
     (loop (rdfStep T outDir (outDir ++ '/' :: r)) files fs).1 p =
       (rdfStep T outDir (outDir ++ '/' :: r) f fs).1 p :=
   batch_isolation_rdf T outDir _ ⟨r, rfl⟩ files fs nd hfresh hex f hf
-    (fun g hg hgf => rdfOuts_disjoint outDir r f g (hstem g hg hgf).1 (hstem g hg hgf).2.1
-      (hstem g hg hgf).2.2) p hp
+    (fun g hg hgf => rdfOuts_disjoint outDir r f g (fun h => hstem g hg hgf h.symm)) p hp
 
 /-- … so a current-version file that exports alone to `d` has `<rdf dir>/<stem>.rdf = d` after the
     batch, whatever else is in the list. -/
 theorem exportable_file_gets_rdf (T : Tool) (outDir r : Path) (files : List Path) (fs : Fs)
     (nd : files.Nodup) (hfresh : Fresh fs outDir) (hex : ∀ g ∈ files, fs g ≠ none)
-    (f : Path) (hf : f ∈ files)
-    (hstem : ∀ g ∈ files, g ≠ f → stem f ≠ stem g ∧ stem f ≠ stem g ++ "_conv".toList ∧
-                                   stem g ≠ stem f ++ "_conv".toList)
+    (f : Path) (hf : f ∈ files) (hstem : ∀ g ∈ files, g ≠ f → stem g ≠ stem f)
     (d : Bytes) (hl : T.loads f (fs f) = true) (hd : T.render f (fs f) = .ok d) :
     (loop (rdfStep T outDir (outDir ++ '/' :: r)) files fs).1 (rdfOut (outDir ++ '/' :: r) f) =
       some d := by
@@ -183,13 +178,69 @@ theorem exportable_file_gets_rdf (T : Tool) (outDir r : Path) (files : List Path
         (by simp [rdfOuts])]
   simp [rdfStep, hl, rdfExport, hd]
 
-/-- odmltordf names the RDF export of a converted file `<stem>_conv.rdf`: an old-version file
-    `a.xml` and a current-version file `a_conv.xml` have distinct base names and yet share the
-    output path `a_conv.rdf`. -/
-theorem rdf_name_collision :
+/-- … and an old-version file that converts alone to `d`, which exports to `d2`, has both
+    `<out dir>/<stem>_conv.xml = d` and `<rdf dir>/<stem>.rdf = d2` after the batch, whatever else
+    is in the list — a current-version file named `<stem>_conv` included. -/
+theorem converted_file_gets_rdf (T : Tool) (outDir r : Path) (files : List Path) (fs : Fs)
+    (nd : files.Nodup) (hfresh : Fresh fs outDir) (hex : ∀ g ∈ files, fs g ≠ none)
+    (f : Path) (hf : f ∈ files) (hstem : ∀ g ∈ files, g ≠ f → stem g ≠ stem f)
+    (d d2 : Bytes) (hl : T.loads f (fs f) = false) (hc : T.convert f (fs f) = .ok (some d))
+    (hd : T.render (convOut outDir f) (some d) = .ok d2) :
+    (loop (rdfStep T outDir (outDir ++ '/' :: r)) files fs).1 (convOut outDir f) = some d ∧
+    (loop (rdfStep T outDir (outDir ++ '/' :: r)) files fs).1 (rdfOut (outDir ++ '/' :: r) f) =
+      some d2 := by
+  have hne : rdfOut (outDir ++ '/' :: r) f ≠ convOut outDir f :=
+    fun h => convOut_ne_rdfOut outDir r f f h.symm
+  constructor
+  · rw [batch_isolation_rdf_base_names T outDir r files fs nd hfresh hex f hf hstem _
+          (by simp [rdfOuts])]
+    simp [rdfStep, hl, rdfViaConversion, writeToFile, hc, ensureXmlExt_conv, rdfExport, hd,
+      write_other _ _ _ _ hne.symm]
+  · rw [batch_isolation_rdf_base_names T outDir r files fs nd hfresh hex f hf hstem _
+          (by simp [rdfOuts])]
+    simp [rdfStep, hl, rdfViaConversion, writeToFile, hc, ensureXmlExt_conv, rdfExport, hd]
+
+/-- Before fix b7276cb odmltordf named the RDF export of a converted file `<stem>_conv.rdf`: an
+    old-version file `a.xml` and a current-version file `a_conv.xml` have distinct base names and
+    yet shared the output path `a_conv.rdf`; whichever came last won (both orders shown), the
+    other file was left without its RDF output. -/
+theorem legacy_rdf_name_collision :
+    let T : Tool := { loads := fun _ c => c == some "CUR".toList,
+                      convert := fun _ c => if c == some "OLD".toList then .ok (some "CONV".toList)
+                                            else .error .valueError,
+                      render := fun _ c => if c == some "CUR".toList then .ok "RDF-CUR".toList
+                                           else if c == some "CONV".toList then .ok "RDF-OLD".toList
+                                           else .error .valueError }
+    let fs := Fs.ofList [("in/a.xml".toList, "OLD".toList), ("in/a_conv.xml".toList, "CUR".toList)]
+    let r1 := loop (rdfStepLegacy T "o".toList "o/r".toList)
+                ["in/a.xml".toList, "in/a_conv.xml".toList] fs
+    let r2 := loop (rdfStepLegacy T "o".toList "o/r".toList)
+                ["in/a_conv.xml".toList, "in/a.xml".toList] fs
     stem "in/a.xml".toList ≠ stem "in/a_conv.xml".toList ∧
     rdfOut "o/r".toList (convOut "o".toList "in/a.xml".toList) =
-      rdfOut "o/r".toList "in/a_conv.xml".toList := by
+      rdfOut "o/r".toList "in/a_conv.xml".toList ∧
+    r1.1 "o/r/a_conv.rdf".toList = some "RDF-CUR".toList ∧ r1.1 "o/r/a.rdf".toList = none ∧
+    r2.1 "o/r/a_conv.rdf".toList = some "RDF-OLD".toList ∧ r2.1 "o/r/a.rdf".toList = none := by
+  decide
+
+/-- The same two runs after the fix: each file has its own RDF output, in both orders. -/
+theorem fixed_rdf_name_witness :
+    let T : Tool := { loads := fun _ c => c == some "CUR".toList,
+                      convert := fun _ c => if c == some "OLD".toList then .ok (some "CONV".toList)
+                                            else .error .valueError,
+                      render := fun _ c => if c == some "CUR".toList then .ok "RDF-CUR".toList
+                                           else if c == some "CONV".toList then .ok "RDF-OLD".toList
+                                           else .error .valueError }
+    let fs := Fs.ofList [("in/a.xml".toList, "OLD".toList), ("in/a_conv.xml".toList, "CUR".toList)]
+    let r1 := loop (rdfStep T "o".toList "o/r".toList)
+                ["in/a.xml".toList, "in/a_conv.xml".toList] fs
+    let r2 := loop (rdfStep T "o".toList "o/r".toList)
+                ["in/a_conv.xml".toList, "in/a.xml".toList] fs
+    r1.1 "o/r/a.rdf".toList = some "RDF-OLD".toList ∧
+    r1.1 "o/r/a_conv.rdf".toList = some "RDF-CUR".toList ∧
+    r2.1 "o/r/a.rdf".toList = some "RDF-OLD".toList ∧
+    r2.1 "o/r/a_conv.rdf".toList = some "RDF-CUR".toList ∧
+    r1.1 "o/a_conv.xml".toList = some "CONV".toList := by
   decide
 
 example : ∃ (T : Tool) (fs : Fs), Fresh fs "o".toList ∧ fs "in/a.xml".toList ≠ none ∧
